@@ -172,6 +172,7 @@ func scenarioAffinity() int {
 			long = append(long, lc)
 		}
 	}
+	cseqs := 0
 	for s := 0; s < nsched && run.Violations() <= 6; s++ {
 		if h := w.Health(); h != "" {
 			run.Violation("proxy died during the run (belongs to C08; the run cannot continue)", map[string]any{"health": h})
@@ -254,6 +255,9 @@ func scenarioAffinity() int {
 				if sv.HasDef {
 					wire.SetHeader(m, "To", "<tel:+15550111>")
 				}
+				// sequence numbers over the whole range RFC 3261 allows (0 .. 2**31-1), the ends included
+				cseqs++
+				wire.SetHeader(m, "CSeq", fmt.Sprintf("%d %s", []int64{1, 0, 2147483647, 2147483646, 65536, 4294967, int64(1 + g.R.Intn(1<<31-1)), int64(cseqs)}[cseqs%8], t.method))
 				conns[t.conn].Send(m.Bytes(), t.id)
 				obs, seen := w.Net.WaitCase(t.id, func(o []*wire.Obs) bool { return len(o) >= 1 }, w.BarrierWait)
 				if !seen || !sv.BackendEndpointNames()[obs[0].Ep] || obs[0].Msg == nil {
